@@ -614,8 +614,15 @@ func TestEnumSharedKeyGraphs(t *testing.T) {
 // and then, with small probabilities, the shapes that matter: backward edges and
 // self-loops (cycles), references to the other flow, missing roots, dangling
 // processor references and wrong condition names.
-func genFlow(t *rapid.T, name, other, url string, haveOther, haveQuota bool) fg.Flow {
+func genFlow(t *rapid.T, name string, others []string, url string, haveOther, haveQuota bool) fg.Flow {
 	f := fg.Flow{Name: name, URL: url}
+	// every flow reference names one of the other flows (or, rarely, the flow itself)
+	pickOther := func(label string) string {
+		if len(others) == 0 {
+			return name
+		}
+		return rapid.SampledFrom(others).Draw(t, label)
+	}
 	pfx := strings.ToUpper(name[:1])
 	nreq := rapid.IntRange(1, 4).Draw(t, "nreq")
 	nresp := rapid.IntRange(0, 3).Draw(t, "nresp")
@@ -664,14 +671,14 @@ func genFlow(t *rapid.T, name, other, url string, haveOther, haveQuota bool) fg.
 		case x < 38 && i >= 0:
 			return fg.End{Proc: keys[rapid.IntRange(0, i).Draw(t, label+"-back")]} // self-loop or backward edge
 		case haveOther:
-			return fg.End{Flow: other, At: "start"}
+			return fg.End{Flow: pickOther(label + "-flow"), At: "start"}
 		}
 		return fg.StreamEnd()
 	}
 	if rapid.IntRange(0, 19).Draw(t, "reqroot") != 11 {
 		f.Req = append(f.Req, fg.Conn{From: fg.StreamStart(), To: fg.End{Proc: reqKeys[0]}})
 	} else if haveOther && rapid.Bool().Draw(t, "flowroot") {
-		f.Req = append(f.Req, fg.Conn{From: fg.End{Flow: other, At: "end"}, To: fg.End{Proc: reqKeys[0]}})
+		f.Req = append(f.Req, fg.Conn{From: fg.End{Flow: pickOther("rootflow"), At: "end"}, To: fg.End{Proc: reqKeys[0]}})
 	}
 	for i, k := range reqKeys {
 		if kinds[k] == "G" {
@@ -807,10 +814,25 @@ func TestRandomConfigs(t *testing.T) {
 			c.Quotas = map[string]string{"q.yaml": q}
 			c.Tags = append(c.Tags, tags...)
 		}
-		second := rapid.IntRange(0, 2).Draw(t, "second") != 0
-		c.Flows = append(c.Flows, genFlow(t, "alpha", "beta", "h.com/p", second, haveQuota))
-		if second {
-			c.Flows = append(c.Flows, genFlow(t, "beta", "alpha", rapid.SampledFrom([]string{"h.com/p", "h.com/q", "h.com/*"}).Draw(t, "url2"), true, haveQuota))
+		// one to three flows; references go to any of the flows, so that chains and cycles of references that do
+		// not pass through the flow being built occur as well (alpha -> beta -> gamma -> beta)
+		nflows := rapid.SampledFrom([]int{1, 2, 2, 3, 3}).Draw(t, "nflows")
+		names := []string{"alpha", "beta", "gamma"}[:nflows]
+		for i, name := range names {
+			others := []string{}
+			for _, o := range names {
+				if o != name || rapid.IntRange(0, 5).Draw(t, "self-"+name) == 0 {
+					others = append(others, o)
+				}
+			}
+			if nflows == 1 {
+				others = nil
+			}
+			url := "h.com/p"
+			if i > 0 {
+				url = rapid.SampledFrom([]string{"h.com/p", "h.com/q", "h.com/*"}).Draw(t, "url-"+name)
+			}
+			c.Flows = append(c.Flows, genFlow(t, name, others, url, nflows > 1, haveQuota))
 		}
 		for _, f := range c.Flows {
 			for _, cn := range append(append([]fg.Conn{}, f.Req...), f.Resp...) {
